@@ -65,3 +65,9 @@ Theorem C12_source_facts :
   has "  self._workers[worker_id] = self.Worker(worker_id, self.pool_params, self.map_params, self._worker_comms, self._worker_insights, TqdmManager.get_connection_details(), get_dashboard_connection_details(), time.time())"%string start_worker_body = true.
 Proof. split; [exact apply_params_spec|vm_compute; reflexivity]. Qed.
 Print Assumptions C12_source_facts.
+
+(* source fact (worker._run_init_func / _run_exit_func): a retiring instance's worker_exit clears its own stamp (also under worker_exit_timeout): an end-of-lifespan restart is not mistaken for a timeout *)
+From Mpv Require Import GenAsync FailAux FailAuxProofs.
+Theorem C12_init_exit_phases_bracketed : init_exit_phases_bracketed = true.
+Proof. exact phases_spec. Qed.
+Print Assumptions C12_init_exit_phases_bracketed.
